@@ -692,8 +692,12 @@ def replay(rj):
             o = early_close_case(ninja)
         elif rj["kind"] == "late-output":
             o = late_output_case(ninja)
+        elif rj["kind"] == "burst-output":
+            o = burst_output_case((ninja, rj["bytes"]))
         elif rj["kind"] == "slow-to-die":
             o = _slow_to_die_case((rj["signal"], ninja, {3: True, 4: "mixed"}.get(rj.get("variant"), False)))
+        elif rj["kind"] == "console-trap":
+            o = _console_trap_case((rj["signal"], ninja))
         elif rj["kind"] == "signal-outside-wait":
             o = _signal_outside_wait_case((rj["signal"], ninja, rj.get("variant", 0)))
         elif rj["kind"] == "signal":
@@ -840,6 +844,91 @@ def _slow_to_die_case(args):
     return out
 
 
+CONSOLE_TRAP_MANIFEST = """rule con
+  command = echo $$$$ > pid; echo half > out; trap 'exit 0' INT TERM HUP; touch started; while :; do sleep 0.05; done
+  pool = console
+build out: con
+"""
+
+
+def _console_trap_case(args):
+    """A console command that catches the signal and exits 0, its SIGCHLD and ninja's own signal both pending when ninja next
+    runs (ninja is stopped while the two are sent: a deterministic order over real signals): the build was interrupted -- exit
+    130, nothing recorded, the next build runs the command again."""
+    signame, ninja = args[:2]
+    root = tempfile.mkdtemp(prefix="rbtrap.", dir=rb.SHM)
+    out = {"signal": signame, "scenario": "console_command_traps_the_signal_and_exits_0", "wait": 0, "partial": True, "problems": [], "variant": 5}
+    try:
+        with open(os.path.join(root, "build.ninja"), "w") as f:
+            f.write(CONSOLE_TRAP_MANIFEST)
+        p = subprocess.Popen([ninja, "-j2"], cwd=root, stdin=subprocess.DEVNULL, stdout=open(os.path.join(root, "ninja.out"), "wb"),
+                             stderr=subprocess.STDOUT, start_new_session=True)
+        t0 = time.time()
+        while not os.path.exists(os.path.join(root, "started")) and time.time() - t0 < 20:
+            time.sleep(0.01)
+        time.sleep(0.1)
+        cpid = int(open(os.path.join(root, "pid")).read())
+        os.kill(p.pid, signal.SIGSTOP)
+        time.sleep(0.05)
+        os.kill(cpid, getattr(signal, signame))
+        t1 = time.time()
+        while time.time() - t1 < 5:       # until the command is gone (a zombie that ninja has yet to reap)
+            try:
+                st = open("/proc/%d/stat" % cpid).read().rsplit(")", 1)[1].split()[0]
+            except OSError:
+                break
+            if st == "Z":
+                break
+            time.sleep(0.01)
+        os.kill(p.pid, getattr(signal, signame))
+        os.kill(p.pid, signal.SIGCONT)
+        try:
+            p.wait(timeout=20)
+        except subprocess.TimeoutExpired:
+            p.kill()
+            p.wait()
+            out["problems"].append("ninja did not exit within 20 s of the signal")
+        out["exit"] = p.returncode
+        if p.returncode != 130 and not out["problems"]:
+            out["problems"].append("exit status %s instead of 130: the signal sent to ninja was lost behind the completion of the console command" % p.returncode)
+        if os.path.exists(os.path.join(root, ".ninja_lock")):
+            out["problems"].append("lock file left behind")
+        # the next build: the command's completion was not durably recorded as a success of an uninterrupted build
+        for fn in ("started", "pid"):
+            try:
+                os.unlink(os.path.join(root, fn))
+            except OSError:
+                pass
+        q = subprocess.Popen([ninja, "-j2"], cwd=root, stdin=subprocess.DEVNULL, stdout=subprocess.PIPE, stderr=subprocess.STDOUT, start_new_session=True)
+        t0 = time.time()
+        while not os.path.exists(os.path.join(root, "started")) and q.poll() is None and time.time() - t0 < 10:
+            time.sleep(0.01)
+        if not os.path.exists(os.path.join(root, "started")):
+            o2 = q.communicate(timeout=10)[0].decode("latin-1")
+            out["problems"].append("the next build does not run the interrupted command again: %r" % o2[-120:])
+        else:
+            try:
+                os.kill(int(open(os.path.join(root, "pid")).read()), signal.SIGINT)
+            except (OSError, ValueError):
+                pass
+            try:
+                q.wait(timeout=10)
+            except subprocess.TimeoutExpired:
+                q.kill()
+                q.wait()
+    except Exception as e:  # noqa
+        out["problems"].append("exception: %r" % (e,))
+    finally:
+        shutil.rmtree(root, ignore_errors=True)
+    return out
+
+
+def console_trap():
+    ninja, _ = rb.build_tools()
+    with multiprocessing.Pool(3) as pool:
+        return pool.map(_console_trap_case, [(s, ninja) for s in ("SIGINT", "SIGTERM", "SIGHUP")])
+
+
 def slow_to_die():
     ninja, _ = rb.build_tools()
     with multiprocessing.Pool(3) as pool:
@@ -851,6 +940,10 @@ def c07_process_level(c):
         if p["problems"]:
             c.violation("C07/process-level %s, a command that is slow to die: %s" % (p["signal"], "; ".join(p["problems"])),
                         {"engine": "rb", "kind": "slow-to-die", "signal": p["signal"], "variant": p["variant"], "problems": p["problems"]})
+    for p in console_trap():
+        if p["problems"]:
+            c.violation("C07/process-level %s, a console command that catches the signal and exits 0 in the same moment: %s" % (p["signal"], "; ".join(p["problems"])),
+                        {"engine": "rb", "kind": "console-trap", "signal": p["signal"], "variant": p["variant"], "problems": p["problems"]})
     for p in signal_outside_wait():
         if p["problems"]:
             c.violation("C07/process-level %s: %s" % (p["signal"], "; ".join(p["problems"])),
@@ -1007,10 +1100,81 @@ def late_output_case(ninja):
     return out
 
 
+BURST_MANIFEST = """rule r
+  command = $cmd
+build a: r
+  cmd = echo $$$$ > pid.a; touch started.a; while [ ! -e go ]; do sleep 0.02; done; head -c %d /dev/zero | tr '\\0' x; echo; touch a
+build b: r
+  cmd = echo plain-b; touch b
+build all: phony a b
+default all
+"""
+
+
+def burst_output_case(args):
+    """A command writes N bytes in one go and exits while ninja is not looking (ninja is stopped meanwhile: a deterministic form
+    of "busy finishing another command" / a loaded machine): when ninja polls again the pipe holds everything and has been
+    hung up -- all of it must still be shown, once, as one block."""
+    ninja, nbytes = args
+    root = tempfile.mkdtemp(prefix="rbburst.", dir=rb.SHM)
+    out = {"scenario": "burst_output_%d" % nbytes, "problems": [], "bytes": nbytes}
+    try:
+        with open(os.path.join(root, "build.ninja"), "w") as f:
+            f.write(BURST_MANIFEST % nbytes)
+        p = subprocess.Popen([ninja, "-j3"], cwd=root, stdin=subprocess.DEVNULL, stdout=open(os.path.join(root, "ninja.out"), "wb"),
+                             stderr=subprocess.STDOUT, start_new_session=True)
+        t0 = time.time()
+        while not os.path.exists(os.path.join(root, "started.a")) and time.time() - t0 < 20:
+            time.sleep(0.01)
+        time.sleep(0.2)
+        cpid = int(open(os.path.join(root, "pid.a")).read())
+        os.kill(p.pid, signal.SIGSTOP)
+        time.sleep(0.05)
+        open(os.path.join(root, "go"), "w").close()
+        t1 = time.time()
+        while time.time() - t1 < 10:      # until the command is gone (a zombie: everything is in the pipe, the pipe hung up)
+            try:
+                st = open("/proc/%d/stat" % cpid).read().rsplit(")", 1)[1].split()[0]
+            except OSError:
+                break
+            if st == "Z":
+                break
+            time.sleep(0.01)
+        os.kill(p.pid, signal.SIGCONT)
+        try:
+            p.wait(timeout=30)
+        except subprocess.TimeoutExpired:
+            p.kill()
+            p.wait()
+            out["problems"].append("ninja did not exit within 30 s")
+        t = open(os.path.join(root, "ninja.out"), "rb").read().decode("latin-1")
+        out["exit"] = p.returncode
+        if p.returncode != 0:
+            out["problems"].append("exit status %s" % p.returncode)
+        runs = [len(x) for x in t.replace("\n", " ").split() if x and set(x) == {"x"}]
+        if runs != [nbytes]:
+            out["problems"].append("the command wrote %d bytes in one go; shown: runs of %s" % (nbytes, runs))
+        if t.split("\n").count("plain-b") != 1:
+            out["problems"].append("the output of 'b' is shown %d times" % t.split("\n").count("plain-b"))
+    except Exception as e:  # noqa
+        out["problems"].append("exception: %r" % (e,))
+    finally:
+        shutil.rmtree(root, ignore_errors=True)
+    return out
+
+
+BURST_SIZES = (1, 4095, 4096, 4097, 8193, 10000, 60000)
+
+
 def c20_process_level(c):
     ninja, _ = rb.build_tools()
     o = late_output_case(ninja)
     if o["problems"]:
         c.violation("C20/process-level late output: %s" % "; ".join(o["problems"]),
                     {"engine": "rb", "kind": "late-output", "problems": o["problems"], "transcript": o.get("transcript")})
-    return {"real_pipe_cases": 1}
+    with multiprocessing.Pool(3) as pool:
+        for o in pool.map(burst_output_case, [(ninja, n) for n in BURST_SIZES]):
+            if o["problems"]:
+                c.violation("C20/process-level output written in one go while ninja was not polling (%d bytes): %s" % (o["bytes"], "; ".join(o["problems"])),
+                            {"engine": "rb", "kind": "burst-output", "bytes": o["bytes"], "problems": o["problems"]})
+    return {"real_pipe_cases": 1 + len(BURST_SIZES)}
